@@ -54,9 +54,16 @@ def history_case(ctx, rng, idx, pending):
     upfront = rng.random() < 0.4     # all dump steps constructed before the first one runs
     hist_case['built_up_front'] = upfront
     plans = []
+    # the caller may hand the very same table-configuration dict to several dump_to_sql calls
+    share_cfg = rng.random() < 0.5
+    hist_case['shared_config_objects'] = share_cfg
+    shared = {}
     for d in range(ndumps):
         mode = rng.choice(['rewrite', 'append', 'update', 'update'])
         rows = gen_rows(rng, rng.choice([0, 1, 2, 5, 9]), with_objects)
+        if pk and mode == 'rewrite' and rng.random() < 0.5:
+            # a rewrite recreates the table: the stream may come with another primary key from here on
+            key_choice = rng.choice([['id'], ['id', 'grp'], ['grp']])
         if pk:
             # the table carries a PRIMARY KEY constraint: plain inserts need distinct, non-null keys
             for r in rows:
@@ -76,6 +83,8 @@ def history_case(ctx, rng, idx, pending):
         cfg = {'resource-name': 'res_1', 'mode': mode}
         if mode == 'update' and not pk:
             cfg['update_keys'] = list(key_choice)
+        if share_cfg:
+            cfg = shared.setdefault(json.dumps(cfg, sort_keys=True), cfg)
         steps = [copy.deepcopy(rows) or [dict(id=0, grp='a', v='x', n=0, **({'l': [], 'o': {}} if with_objects else {}))],
                  DF.set_type('grp', type='string')]
         empty = not rows
@@ -86,9 +95,9 @@ def history_case(ctx, rng, idx, pending):
         desc = {'mode': mode, 'keys': key_choice if mode == 'update' else None, 'keys_from_pk': pk, 'rows': canon._plain(rows),
                 'batch_size': bs, 'bloom': bloom}
         mk = (lambda steps=steps, cfg=cfg, bs=bs, bloom=bloom: Flow(*steps, DF.dump_to_sql(
-            {'t': copy.deepcopy(cfg)}, engine=engine, updated_column='upd', batch_size=bs, use_bloom_filter=bloom)))
-        plans.append((mode, rows, desc, mk() if upfront else mk))
-    for d, (mode, rows, desc, flow) in enumerate(plans):
+            {'t': (cfg if share_cfg else copy.deepcopy(cfg))}, engine=engine, updated_column='upd', batch_size=bs, use_bloom_filter=bloom)))
+        plans.append((mode, rows, desc, mk() if upfront else mk, list(key_choice)))
+    for d, (mode, rows, desc, flow, dump_keys) in enumerate(plans):
         hist_case['dumps'].append(desc)
         try:
             with quiet():
@@ -101,7 +110,7 @@ def history_case(ctx, rng, idx, pending):
         down = res[0]
         flags = [r.pop('upd') for r in down]
         table = read_table(engine, 't')
-        dumps.append({'mode': mode, 'keys': list(key_choice), 'rows': [canon.enc_row(r) for r in rows]})
+        dumps.append({'mode': mode, 'keys': list(dump_keys), 'rows': [canon.enc_row(r) for r in rows]})
         rep.case('dump:' + mode, {'history': copy.deepcopy(hist_case), 'dump_index': d}, key=[idx, d], nontrivial=bool(rows))
         rep.hist('mode', mode)
         # ---- oracle, straight from the property statement
